@@ -795,3 +795,78 @@ def emit_allany(rows) -> str:
                      for tag, f, ib, inn, red, outer in rows)
     return ("From Coq Require Import List ZArith Bool.\nFrom ND Require Import Ndx.ReduceMore.\n"
             "(* GENERATED from _numericimpl.py / _boolimpl.py: all / any as (inner step, reducer, outer comparison) *)\n" + defs + "\n")
+
+
+# ------------------------------------------------------------------ name joining in _build.py (C05) ---
+def build_joins():
+    """How _flatten and _assemble_outputs.helper form the tensor name of a sub-field and index the flat table:
+    the recursive call must pass f"{<the accumulated-path parameter>}_{<the loop's field variable>}", and the leaf must
+    read / write the table under the accumulated path.  Returns dict of booleans + separator.  Fail-closed."""
+    text, mod = src("ndonnx/_build.py")
+
+    def find(body, name):
+        for n in body:
+            if isinstance(n, ast.FunctionDef) and n.name == name:
+                return n
+        raise Untranslatable(f"_build.py: function {name} not found")
+
+    def join_of(call_arg, loop_field):
+        if not (isinstance(call_arg, ast.JoinedStr) and len(call_arg.values) == 3 and isinstance(call_arg.values[0], ast.FormattedValue)
+                and isinstance(call_arg.values[1], ast.Constant) and isinstance(call_arg.values[2], ast.FormattedValue)
+                and isinstance(call_arg.values[0].value, ast.Name) and isinstance(call_arg.values[2].value, ast.Name)):
+            raise Untranslatable("_build.py: sub-field name is not f\"{a}<sep>{b}\": " + ast.unparse(call_arg))
+        if call_arg.values[2].value.id != loop_field:
+            raise Untranslatable("_build.py: sub-field name does not end with the loop's field variable: " + ast.unparse(call_arg))
+        return call_arg.values[0].value.id, call_arg.values[1].value
+
+    # ---- _flatten(input_dict, dtype, field_name)
+    fl = find(mod.body, "_flatten")
+    params = [a.arg for a in fl.args.args]
+    if len(params) != 3:
+        raise Untranslatable("_flatten: signature")
+    acc_param = params[2]
+    rec = [n for n in ast.walk(fl) if isinstance(n, ast.Call) and isinstance(n.func, ast.Name) and n.func.id == "_flatten"]
+    loops = [n for n in ast.walk(fl) if isinstance(n, ast.For)]
+    if len(rec) != 1 or len(loops) != 1 or not isinstance(loops[0].target, ast.Tuple) or ast.unparse(loops[0].iter) != f"{params[1]}._fields().items()" \
+            or len(rec[0].args) != 3 or ast.unparse(rec[0].args[0]) != f"{params[0]}[{loops[0].target.elts[0].id}]" or ast.unparse(rec[0].args[1]) != loops[0].target.elts[1].id:
+        raise Untranslatable("_flatten: recursion structure")
+    head, sep1 = join_of(rec[0].args[2], loops[0].target.elts[0].id)
+    leaf = [n for n in ast.walk(fl) if isinstance(n, ast.Return) and isinstance(n.value, ast.Dict)]
+    if len(leaf) != 1 or len(leaf[0].value.keys) != 1 or not isinstance(leaf[0].value.keys[0], ast.Name) or ast.unparse(leaf[0].value.values[0]) != f"{params[0]}['data']":
+        raise Untranslatable("_flatten: leaf")
+    out = {"flatten_acc": head == acc_param, "flatten_leaf_by_path": leaf[0].value.keys[0].id == acc_param}
+    # ---- _assemble_outputs -> _assemble_output(name, type) -> helper(cur_type, prefix)
+    ao = find(find(mod.body, "_assemble_outputs").body, "_assemble_output")
+    hp = find(ao.body, "helper")
+    hparams = [a.arg for a in hp.args.args]
+    if len(hparams) != 2:
+        raise Untranslatable("helper: signature")
+    rec = [n for n in ast.walk(hp) if isinstance(n, ast.Call) and isinstance(n.func, ast.Name) and n.func.id == "helper"]
+    comps = [n for n in ast.walk(hp) if isinstance(n, ast.DictComp)]
+    if len(rec) != 1 or len(comps) != 1 or len(comps[0].generators) != 1 or not isinstance(comps[0].generators[0].target, ast.Tuple) \
+            or ast.unparse(comps[0].generators[0].iter) != f"{hparams[0]}._fields().items()" or comps[0].generators[0].ifs \
+            or ast.unparse(comps[0].key) != comps[0].generators[0].target.elts[0].id or comps[0].value is not rec[0] \
+            or len(rec[0].args) != 2 or ast.unparse(rec[0].args[0]) != comps[0].generators[0].target.elts[1].id:
+        raise Untranslatable("helper: recursion structure")
+    head2, sep2 = join_of(rec[0].args[1], comps[0].generators[0].target.elts[0].id)
+    subs = [n for n in ast.walk(hp) if isinstance(n, ast.Subscript) and isinstance(n.value, ast.Name) and n.value.id == "output_data"]
+    if len(subs) != 1 or not isinstance(subs[0].slice, ast.Name):
+        raise Untranslatable("helper: leaf lookup")
+    top = [n for n in ast.walk(ao) if isinstance(n, ast.Call) and isinstance(n.func, ast.Name) and n.func.id == "helper" and n is not rec[0]]
+    ao_params = [a.arg for a in ao.args.args]
+    if len(top) != 1 or [ast.unparse(a) for a in top[0].args] != [ao_params[1], ao_params[0]]:
+        raise Untranslatable("_assemble_output: initial call of helper")
+    if sep1 != sep2:
+        raise Untranslatable(f"_build.py: different separators {sep1!r} / {sep2!r}")
+    out.update({"assemble_acc": head2 == hparams[1], "assemble_leaf_by_path": subs[0].slice.id == hparams[1], "sep": sep1})
+    if not out["assemble_acc"] and head2 != ao_params[0]:
+        raise Untranslatable("helper: sub-field names start with neither the accumulated path nor the output name: " + head2)
+    return out
+
+
+def emit_build_joins(j) -> str:
+    b = lambda x: "true" if x else "false"
+    return ("From Coq Require Import String Bool.\nOpen Scope string_scope.\n(* GENERATED from ndonnx/_build.py: how _flatten and _assemble_outputs.helper form and use tensor names *)\n"
+            f"Definition gen_flatten_acc : bool := {b(j['flatten_acc'])}.\nDefinition gen_flatten_leaf_by_path : bool := {b(j['flatten_leaf_by_path'])}.\n"
+            f"Definition gen_assemble_acc : bool := {b(j['assemble_acc'])}.\nDefinition gen_assemble_leaf_by_path : bool := {b(j['assemble_leaf_by_path'])}.\n"
+            f"Definition gen_sep : string := {qs(j['sep'])}.\n")
